@@ -107,8 +107,12 @@ def dwarf_view(dw):
     return v
 
 
+_RELOCATE = [None]      # relocate_dwarf_sections argument of the current run (None = the library's default)
+
+
 def open_view(data, peers=None, follow=True, loader=True, peer_faults=None):
     """-> dict(outcome='view'|'rejected', view=..., exc=..., loads=[...], fired=bool)"""
+    kw = {} if _RELOCATE[0] is None else {'relocate_dwarf_sections': _RELOCATE[0]}
     from elftools.elf.elffile import ELFFile
     clock = IOClock()
     fs = SimFS(clock)
@@ -124,7 +128,7 @@ def open_view(data, peers=None, follow=True, loader=True, peer_faults=None):
         out['has_link'] = elf.has_dwarf_link()
         link = elf.get_dwarf_link()
         out['link'] = None if link is None else (bytes(link.filename), link.checksum)
-        dw = elf.get_dwarf_info(follow_links=follow)
+        dw = elf.get_dwarf_info(follow_links=follow, **kw)
         out['outcome'] = 'view'
         out['view'] = dwarf_view(dw)
         sup = getattr(dw, 'supplementary_dwarfinfo', None)
@@ -214,6 +218,10 @@ def _c11_plan(tier, seed):
         if info[n]['sup']:
             for cfg in ('sup_plain', 'sup_main_gabi', 'sup_peer_gabi', 'sup_both_gabi', 'sup_noloader', 'sup_nofollow', 'sup_split_link'):
                 plan.append((n, cfg, None))
+        if info[n]['relocs'] and not info[n]['sup']:
+            # relocatable objects: the caller's relocate_dwarf_sections=False must reach every container alike
+            for cfg, params in (('identity', {}), ('gabi', {'level': 6}), ('split_link', {'peer': 'plain'}), ('split_link', {'peer': 'gabi'})):
+                plan.append((n, cfg, dict(params, relocate=False)))
     # a large, highly compressible tail on .debug_str (the view never looks at it: strings are fetched by offset): compressed
     # payloads spanning several read chunks with an extreme inflation ratio in the first one
     big = [n for n in elig if '.debug_str' in info[n]['debug'] and not info[n]['sup']][:6 if tier == 'quick' else 40]
@@ -258,6 +266,8 @@ def _c11_gen(seed, tier, index):
     if cfg == 'fault:link_crc':
         params['mode'] = r.choice(['wrong', 'flip', 'trunc', 'field'])
         params['pos'] = r.random()
+    if _ST['info'][n]['relocs'] and r.random() < 0.25:
+        params['relocate'] = False
     return dict(engine=ENGINE, mode='C11', file=n, config=cfg, params=params, seeded=rs)
 
 
@@ -277,7 +287,7 @@ def _plain_image(data, pad_str=0):
 
 def _ref_view(name, follow=False):
     """View of the plain container (reference), cached per process."""
-    key = (name, follow)
+    key = (name, follow, _RELOCATE[0])
     c = _ST.setdefault('v0', {})
     if key not in c:
         data = env.corpus_bytes(name)
@@ -362,6 +372,14 @@ def _c11_corpus_link(spec):
 
 
 def _c11_exec(spec):
+    _RELOCATE[0] = (spec.get('params') or {}).get('relocate')
+    try:
+        return _c11_exec2(spec)
+    finally:
+        _RELOCATE[0] = None
+
+
+def _c11_exec2(spec):
     name = spec['file']
     cfg = spec['config']
     if cfg.startswith('corpus_link'):
@@ -371,6 +389,8 @@ def _c11_exec(spec):
     violations = []
     faults = {}
     probes = {'cfg_' + cfg: 1}
+    if p.get('relocate') is False:
+        probes['relocate_dwarf_sections_false'] = 1
 
     def viol(check, expected, observed, part=''):
         violations.append(dict(key='%s|%s%s' % (cfg, check, ('|' + part) if part else ''), check=check,
